@@ -700,8 +700,9 @@ func init() {
 func init() {
 	register(&checkDef{prop: "C10", parts: []part{
 		{name: "c10", gen: genC10, monitors: []Monitor{monC10}, labels: commonLabels, nontrivial: ntC10, quick: 1200, thorough: 30000},
+		{name: "c10_late_serve", gen: genC10Late, monitors: []Monitor{monC10Late}, labels: labelsC10Late, nontrivial: ntC10Late, quick: 800, thorough: 25000},
 	},
-		rule: "0-4 in-flight RPCs of any shape in any phase (tape-positioned), InitiateShutdown (forward) or GracefulStop (reverse, 1 or 3 tunnels) at a drawn step, 0-4 RPCs attempted afterwards whose frames interleave with the in-flight ones, optionally Stop at a later drawn step; oracle per clause of the statement (refusal with Unavailable judged by when the server processed new_stream, in-flight results equal the no-shutdown model, tunnel up until they finish, GracefulStop/Stop return points); non-trivial = at least one RPC in flight at the shutdown step and at least one processed after it"})
+		rule: "0-4 in-flight RPCs of any shape in any phase (tape-positioned), InitiateShutdown (forward) or GracefulStop (reverse, 1 or 3 tunnels) at a drawn step, 0-4 RPCs attempted afterwards whose frames interleave with the in-flight ones, optionally Stop at a later drawn step; oracle per clause of the statement (refusal with Unavailable judged by when the server processed new_stream, in-flight results equal the no-shutdown model, tunnel up until they finish, GracefulStop/Stop return points); non-trivial = at least one RPC in flight at the shutdown step and at least one processed after it. c10_late_serve: one more Serve call on a serving reverse-tunnel server within a few steps of Stop (optionally after GracefulStop), the new carrier stream's round trip delivered by the schedule; oracle: Stop returns, registered Serve calls return before it does, a Serve call caught mid-open does not go on to serve (it has returned once the run is drained), no handler runs after Stop returned; non-trivial = Stop ran while a Serve call was between opening its stream and registering it"})
 }
 
 func init() {
